@@ -38,7 +38,7 @@ def _cfg(ctx, thin, offset):
             "CONSTANTS MaxJ2 = 4\n MaxFinJ2 = 2\n FinBudget3 = 3\n FinBudget4 = 2\n NSet = {3, 4}\n"
             " MaxWord = 0\n Thin = %d\n Offset = %d\n Reps3 = 4\n Reps4 = 1\n NModels = %d\n"
             "INIT InitBook\nNEXT NextBook\n"
-            "INVARIANT TypeOKBook\nINVARIANT RefRule\nINVARIANT SensitiveIffRefMoves\nINVARIANT BaselineAdmissible\n"
+            "INVARIANT TypeOKBook\nINVARIANT RefRule\nINVARIANT SensitiveIffRefMoves\nINVARIANT BaselineAdmissible\nINVARIANT JudgeableTrivial\n"
             "POSTCONDITION PostBook\nCHECK_DEADLOCK FALSE\n" % (thin, offset, len(S.MODEL_TAGS))
         )
     return p
@@ -58,6 +58,7 @@ def opt_key(o):
 
 
 DEFAULT = ("none", True, False, False)
+CMOPT = ("cm", True, True, False)
 ALL_OPTS = [(ar, rz, cm, ol) for ar in ("none", "cm") for rz in (True, False) for cm in (False, True) for ol in (False, True)]
 
 
@@ -69,13 +70,46 @@ def features(e):
     f |= {("multispin", s["fin"][l - 1][0]) for l in e["multis"]}
     f |= {("res", j2) for c in s["chains"] for _, j2, _ in c["res"]}
     f.add(("nclasses", len({S.fz(c["form"]) for c in s["chains"]})))
+    if e.get("needsalign"):
+        f.add(("idgroups", len(s["ident"])))
+        f.add(("idsize", max(len(g) for g in s["ident"])))
+        f.add(("identspin", max(s["fin"][i - 1][0] for g in s["ident"] for i in g)))
+        f.add(("aligned_orders", sum(1 for v in e["refs"].values() if v[2]) > 0))
     return f
 
 
+def select_ident(entries, k, rng):
+    """structures with declared identical particles and a spinning final (spec: NeedsAlign): first those with an
+    exchange-symmetric rule-1 reference (align_ref None <-> center_mass is judgeable there), then alignment-sensitive
+    ones (the chain order moves the reference; judged among the align_ref = center_mass states), then a feature cover"""
+    idx = [i for i in rng.permutation(len(entries)) if entries[i].get("needsalign")]
+    chosen = []
+    aligned = [i for i in idx if any(v[2] for v in entries[i]["refs"].values())]
+    chosen += aligned[: max(1, k // 3)]
+    sens = [i for i in idx if i not in chosen and entries[i]["sensitive"] and max(entries[i]["s"]["fin"][j - 1][0] for g in entries[i]["s"]["ident"] for j in g) > 0]
+    chosen += sens[: max(1, k // 3)]
+    feats = {i: features(entries[i]) for i in idx}
+    todo = set().union(*feats.values()) if feats else set()
+    for i in chosen:
+        todo -= feats[i]
+    while todo and len(chosen) < k:
+        best = max((i for i in idx if i not in chosen), key=lambda i: len(feats[i] & todo), default=None)
+        if best is None or not feats[best] & todo:
+            break
+        chosen.append(best)
+        todo -= feats[best]
+    for i in idx:
+        if len(chosen) >= k:
+            break
+        if i not in chosen:
+            chosen.append(i)
+    return [int(i) for i in chosen[:k]]
+
+
 def select(entries, k, rng):
-    order = list(rng.permutation(len(entries)))
-    feats = [features(e) for e in entries]
-    todo = set().union(*feats)
+    order = [i for i in rng.permutation(len(entries)) if not entries[i].get("needsalign")]
+    feats = {i: features(entries[i]) for i in order}
+    todo = set().union(*feats.values())
     chosen = []
     # mandatory first: alignment-sensitive structures whose orphan final has spin 1/2
     for want in (("orphanspin", 1), ("orphanspin", 2), ("multi", True), ("sensitive", False)):
@@ -95,7 +129,7 @@ def select(entries, k, rng):
             break
         if i not in chosen and entries[i]["sensitive"]:
             chosen.append(i)
-    return sorted(chosen[:k])
+    return sorted(int(i) for i in chosen[:k])
 
 
 def impl_refs(data, names, tag):
@@ -160,8 +194,9 @@ def run(ctx):
     from ..prelude import import_tf_quiet
 
     quick = ctx.tier == "quick"
-    thin = 4 if quick else 1
-    nsel = 12 if quick else 100
+    thin = 6 if quick else 1
+    nsel = 12 if quick else 85
+    nsel_id = 3 if quick else 15
     nev = 32
     offset = ctx.seed % 100000
     r = tlc.run("Symmetry", _cfg(ctx, thin, offset), work=ctx.work, workers=16, timeout=1500)
@@ -185,13 +220,21 @@ def run(ctx):
         raise tlc.MachineryError("admissibility table incomplete")
     for e in entries:
         e["s"]["ident"] = [sorted(pr) for pr in e["s"]["ident"]]
-        e["refs"] = {tuple(p): ([S.fz(f) for f in refs], bool(diff)) for p, refs, diff in e["refs"]}
+        e["refs"] = {tuple(p): ([S.fz(f) for f in refs], bool(diff), bool(al)) for p, refs, diff, al in e["refs"]}
+        e["judgeable"] = {(tuple(j[0]), j[1], bool(j[2]), bool(j[3]), bool(j[4]), j[5]) for j in e["judgeable"]}
+        e["baseopt"] = (e["baseopt"][0], bool(e["baseopt"][1]), bool(e["baseopt"][2]), bool(e["baseopt"][3]))
     entries.sort(key=lambda e: S.skey(e["s"]))
     ctx.log("TLC: %d structures (%d alignment-sensitive, %d with a spin-1/2 orphan, %d multi-producer), %d states" % (out["n"], out["nsensitive"], out["norphanhalf"], out["nmulti"], r.distinct))
 
     import_tf_quiet()
     rng = np.random.default_rng(ctx.seed % (2**32))
     chosen = select(entries, nsel, rng)
+    chosen_id = select_ident(entries, nsel_id, rng)
+    n_needs = sum(1 for e in entries if e["needsalign"])
+    if n_needs and not chosen_id:
+        raise tlc.MachineryError("identical-particle structures in the family but none selected")
+    chosen = chosen + chosen_id
+    n_id_states = n_id_cmp = n_id_skipped = n_id_none_vs_cm = 0
     ctx.cov["exhaustive"] = False
     n_states = n_adm = n_inadm = n_inadm_differ = n_refmoved = n_refcheck = n_drift = 0
     max_nerr = 0.0
@@ -203,7 +246,12 @@ def run(ctx):
         nch = len(s["chains"])
         perms = list(itertools.permutations(range(1, nch + 1)))
         ident = tuple(range(1, nch + 1))
-        if quick:
+        base_state = (ident, e["baseopt"])
+        if quick and e["needsalign"]:
+            # identical particles: all orders x {default, center_mass reference}, a few toggles on the declared order
+            few = [("cm", True, False, False), ("cm", False, True, True), ("none", False, False, False), ("none", True, True, False), ("none", True, False, True)]
+            states = [(p, o) for p in perms for o in (DEFAULT, CMOPT)] + [(ident, o) for o in few]
+        elif quick:
             # all orders with the default options; all option vectors on the declared order;
             # single toggles and everything toggled on the reversed order
             few = [("cm", True, False, False), ("none", False, False, False), ("none", True, True, False), ("none", True, False, True), ("cm", False, True, True)]
@@ -219,7 +267,7 @@ def run(ctx):
             ctx.violation("%s:parameters-by-name" % key, {"structure": s, "problem": res["param_problem"]})
             continue
         featset |= features(e)
-        base = res["dens"][(ident, DEFAULT)]
+        base = res["dens"][base_state]
         scale = float(np.median(np.abs(base)))
         for (perm, o), d in res["dens"].items():
             n_states += 1
@@ -230,10 +278,19 @@ def run(ctx):
                 ne = float(np.max(np.abs(a - b) / tol)) if ok_num else float("inf")
                 admissible = adm[o + (fr,)]
                 moved = e["refs"][perm][1]
+                if e["needsalign"]:
+                    n_id_states += fi == 0
+                    if admissible and (perm, o[0], o[1], o[2], o[3], fr) not in e["judgeable"]:
+                        # rule-1 reference not exchange symmetric under this order: known C01 finding, not judged
+                        n_id_skipped += 1
+                        continue
+                    if admissible:
+                        n_id_cmp += 1
+                        n_id_none_vs_cm += o[0] != e["baseopt"][0]
                 if admissible:
                     n_adm += 1
                     n_refmoved += moved and o[0] == "none"
-                    ctx.count(nev, distinct_key=(key, perm, o, fr), nontrivial=(perm != ident or o != DEFAULT))
+                    ctx.count(nev, distinct_key=(key, perm, o, fr), nontrivial=((perm, o) != base_state))
                     if ne > 1:
                         ev = int(np.argmax(np.abs(a - b) / tol)) if ok_num else 0
                         ctx.violation(
@@ -248,7 +305,7 @@ def run(ctx):
                     n_inadm_differ += ne > 1
         # discrete binding of the reference rule (model drift only)
         for perm, refs in res["refs"].items():
-            exp_refs, _ = e["refs"][perm]
+            exp_refs = e["refs"][perm][0]
             for l in range(1, s["n"] + 1):
                 got = refs.get(l, [])
                 n_refcheck += 1
@@ -263,6 +320,8 @@ def run(ctx):
         raise tlc.MachineryError("no replayed state moved the alignment reference: comparison vacuous")
     ctx.part("structures", family=out["n"], sensitive=out["nsensitive"], spin_half_orphans=out["norphanhalf"], multi_producer=out["nmulti"], evaluated=len(chosen))
     ctx.part("states", tlc_states=r.distinct, replayed=n_states, admissible_comparisons=n_adm, with_reference_moved=n_refmoved)
+    ctx.part("identical_particles", family=n_needs, evaluated=len(chosen_id), states_replayed=n_id_states, judgeable_comparisons=n_id_cmp,
+             across_align_ref=n_id_none_vs_cm, not_judgeable_known_C01_finding=n_id_skipped)
     ctx.part("outside_quantifier", inadmissible_comparisons=n_inadm, of_which_density_differs=n_inadm_differ)
     ctx.part("ref_binding", leaves_checked=n_refcheck, model_drift=n_drift)
     ctx.cov["parts"]["margin"] = {"max_normalised_density_error": max_nerr, "tolerance_rel": REL, "tolerance_abs": ABS}
@@ -270,7 +329,7 @@ def run(ctx):
     ctx.cov["traces_validated_against_impl"] = n_states
     ctx.cov["rule"] = (
         "TLC enumerates every (structure, chain order, option vector, frame) state of the bookkeeping machine on a slice (Thin=%d, Offset=%d) "
-        "of the structure product (>= 2 chains, a spinning final particle, no identical particles); %d structures (greedy feature cover, "
+        "of the structure product (>= 2 chains, a spinning final particle); %d structures (identical-particle ones judged on the states the spec's Judgeable table admits; greedy feature cover, "
         "alignment-sensitive ones first) are replayed: %s; each state on %d rest-frame + %d laboratory-frame events, compared with the "
         "declared order / default options of the same frame: |d'-d| <= %g*(max+median)+%g. distinct non-trivial = admissible "
         "(structure, order, options, frame) cells other than the baseline" % (thin, offset, len(chosen), "all orders x default options, declared order x all 16 option vectors, reversed order x 5 option vectors" if quick else "all orders x all 16 option vectors", nev, nev, REL, ABS)
@@ -278,7 +337,7 @@ def run(ctx):
     ctx.assume("np.Inf shim (harness/prelude.py); tf_pwa imported from the working tree")
     ctx.assume("admissibility table of spec/Symmetry.tla: align_ref=center_mass only with rest-frame events or center_mass=True; r_boost=False is outside the property")
     ctx.assume("events and couplings are sampled (seeded); parameters are set by name on every configuration")
-    ctx.assume("structures with declared identical particles are exercised by C01 only (their known defect also depends on the chain order)")
+    ctx.assume("with declared identical particles and a spinning final only the states of spec Judgeable are compared (align_ref=center_mass, or a rule-1 reference that the exchange maps onto itself); the rest is the known C01 finding")
 
 
 def replay(ctx, path):
